@@ -4,7 +4,8 @@ PROPERTY THEOREMS ONLY (model: Hts.Model.CachedReader; contract: Hts.Spec.CacheC
 
 Scope of the theorems: the sequential reader (`rd = 1`), every file whose members have positive size, every history
 of Seek / Read / ReadByte / Blocked / SetCache(new cache | nil | a cache used earlier in the history) of any length, every cache that satisfies the
-contract (proved for LRU, Random and StatsRecorder around them in C14; FIFO does not satisfy it).
+contract (proved for LRU, Random and StatsRecorder around them in C14; FIFO does not satisfy it — FIFO has its own
+invariant and theorems, section "FIFO with the repaired reader: all histories", for the variants with repair C03-5).
 The code variant is any one in which a block whose load failed keeps no data (`Cfg.noStale`: repair C03-1
 `clearOnRebase` — `setBase` drops the previous data — or repair C09-2 `failReset` — `decompressor.failAt` — or both, as in
 the current tree `Cfg.repaired`), with or without repair C03-2 (`peekGuard`).  For the unchanged tree (`Cfg.asIs`) the statements are false:
@@ -17,6 +18,7 @@ import Hts.Lemmas.CacheReadAhead
 import Hts.Lemmas.CacheSum
 import Hts.Lemmas.CachedReaderVsC02
 import Hts.Lemmas.CachedReaderC02Sim
+import Hts.Lemmas.CachedReaderFifo
 namespace Hts.Props.C03
 open Hts.Model.Cache Hts.Spec.CacheContract Hts.Model.CachedReader
 
@@ -260,13 +262,12 @@ theorem fifo_witness :
       bytesOf (outputs Cfg.asIs fifoOps file3 (fifoOpsHist.map Op.uncached)) := by decide
 
 /-- with repair C03-2 (`cacheSwap` does not recycle a block the cache still Peeks) that history is transparent.
-A theorem for all histories with FIFO is NOT proved (FIFO does not satisfy the contract the proof uses);
-FIFO with the repaired reader is covered by the correspondence check only. -/
+(All histories: `fifo_repaired_transparent` below.) -/
 theorem fifo_witness_repaired :
     bytesOf (outputs Cfg.repaired fifoOps file3 fifoOpsHist) =
       bytesOf (outputs Cfg.repaired fifoOps file3 (fifoOpsHist.map Op.uncached)) := by decide
 
-/-- the full statement for FIFO with the repaired reader: stated, NOT proved (no obligation is counted) -/
+/-- the full statement for FIFO with the repaired reader (proved below: `fifo_transparent_repaired_full_holds`) -/
 def fifo_transparent_repaired_full : Prop :=
   ∀ (f : File), FileOK f → ∀ (ops : List (Op LCache)), (∀ op ∈ ops, OpOK fifoOps LCache.WF op) →
     ∀ outs, outputs Cfg.repaired fifoOps f ops = .ok outs →
@@ -303,6 +304,168 @@ example : (∀ op ∈ reattachHist, OpOK lruOps LCache.WF op) ∧
   simp only [reattachHist, List.mem_cons, List.mem_nil_iff, or_false] at hop
   rcases hop with h1 | h1 | h1 | h1 | h1 | h1 | h1 | h1 <;> subst h1 <;>
     first | exact lru_setCache_ok 4 (by decide) [] | trivial
+
+/-! ### FIFO with the repaired reader: all histories (extension round 4)
+
+`FIFO.Get` leaves a block that has been read from in its table, so FIFO is outside `Contract` and `cache_inv` is false
+for it (the current block can be a cache entry; after `SetCache(nil)` + another cache, two cache objects can reference
+one block).  What makes it safe on a tree with repair C03-5 (`lentGuard`; `Cfg.repaired` is one) is the invariant
+`Hts.Model.CachedReaderFifo.FInv`: every base ↦ block entry of every cache object (attached or detached) maps to a
+block whose content is the member at that base; a current block that some table references is the block on loan
+(`bg.lent`) and has been read from; a block referenced by two tables has been read from.  `nextBlockAt` decompresses
+only into a new block or a current block that no table references (`loadAt_spec`, `cacheSwap_spec` there).
+Capacities: every `NewFIFO(n)`, `n ≥ 1` (`n < 1` gives the nil cache, i.e. `SetCache(nil)`). -/
+
+section Fifo
+open Hts.Model.CachedReaderFifo
+
+theorem fifo_setCache_ok (n : Int) (hn : 1 ≤ n) (hints : List Int) :
+    OpOK fifoOps LCache.WF (.setCache (some (LCache.new n)) hints) := ⟨LCache.wf_new hn, rfl⟩
+
+/-- **fifo_inv**: after every history of Seek / Read / ReadByte / Blocked / SetCache(new FIFO of any capacity ≥ 1 |
+nil | a FIFO used earlier in the history) the invariant `FInv` holds (code variants: `noStale` and repair C03-5) -/
+theorem fifo_inv (cfg : Cfg) (hcfg : cfg.noStale) (hlg : cfg.lentGuard = true) (f : File) (hf : FileOK f)
+    (ops : List (Op LCache)) (ok : ∀ op ∈ ops, OpOK fifoOps LCache.WF op) (r0 r : Reader LCache) (outs : List Out)
+    (h0 : newReader fifoOps cfg f = .ok (r0, .none)) (hr : run cfg fifoOps f r0 ops = .ok (r, outs)) :
+    FInv f r := by
+  have s0 := Hts.Model.CachedReaderFifo.newReader_S hcfg h0
+  have h := Hts.Model.CachedReaderFifo.run_sim hcfg hlg hf ops ok s0
+  rcases h.cases with e1 | ⟨a, b, e1, _, r1⟩ | ⟨e, e1, _⟩
+  · exact e1.elim
+  · rw [hr] at e1; cases e1; exact r1.2.w.invC
+  · rw [hr] at e1; cases e1
+
+/-- … spelled out: no indexed block is ever overwritten — every table entry `(k, id)` of the attached FIFO and of
+every detached one refers to an allocated block whose base, data, header size and file offset are those of the member
+at `k`; and if the current block is such a block, it is the one remembered in `bg.lent` (never recycled) -/
+theorem fifo_indexed_blocks_intact (cfg : Cfg) (hcfg : cfg.noStale) (hlg : cfg.lentGuard = true) (f : File)
+    (hf : FileOK f) (ops : List (Op LCache)) (ok : ∀ op ∈ ops, OpOK fifoOps LCache.WF op) (r0 r : Reader LCache)
+    (outs : List Out) (h0 : newReader fifoOps cfg f = .ok (r0, .none))
+    (hr : run cfg fifoOps f r0 ops = .ok (r, outs)) :
+    ∀ c ∈ r.cache.toList ++ r.parked, ∀ e ∈ c.items,
+      e.id < r.fresh ∧ Good f e.key (r.heap e.id) ∧ (r.cur = some e.id → r.lent = some e.id) := by
+  have inv := fifo_inv cfg hcfg hlg f hf ops ok r0 r outs h0 hr
+  intro c hc e he
+  obtain ⟨a1, a2⟩ := inv.ents c hc e he
+  exact ⟨a1, a2, fun hcur => (inv.loan e.id hcur ⟨c, hc, e, he, rfl⟩).1⟩
+
+/-- **fifo_repaired_transparent**: with FIFO caches of any capacity ≥ 1 attached, replaced, detached and re-attached
+at arbitrary points, every call of the cached reader returns the same bytes, error class (nil / io.EOF / other) and
+LastChunk as the uncached reader on the same history — for every file with positive member sizes, every history,
+every code variant with `noStale` and repair C03-5 (`Cfg.repaired` in particular) -/
+theorem fifo_repaired_transparent (cfg : Cfg) (hcfg : cfg.noStale) (hlg : cfg.lentGuard = true) (f : File)
+    (hf : FileOK f) (ops : List (Op LCache)) (ok : ∀ op ∈ ops, OpOK fifoOps LCache.WF op) (outs : List Out)
+    (hr : outputs cfg fifoOps f ops = .ok outs) :
+    outputs cfg fifoOps f (ops.map Op.uncached) = .ok outs := by
+  unfold outputs at hr ⊢
+  cases h0 : newReader fifoOps cfg f with
+  | error e => rw [h0] at hr; cases hr
+  | ok v =>
+    obtain ⟨r0, e⟩ := v
+    rw [h0] at hr
+    simp only at hr ⊢
+    by_cases he : e = .none
+    · subst he
+      simp only [ne_eq, not_true_eq_false, if_false] at hr ⊢
+      have s0 := Hts.Model.CachedReaderFifo.newReader_S hcfg h0
+      have h := Hts.Model.CachedReaderFifo.run_sim hcfg hlg hf ops ok s0
+      rcases h.cases with e1 | ⟨a, b, e1, e2, r1⟩ | ⟨e', e1, _⟩
+      · exact e1.elim
+      · rw [e1] at hr
+        rw [e2]
+        obtain ⟨C1, o1⟩ := a
+        obtain ⟨U1, o2⟩ := b
+        simp only [Except.ok.injEq] at hr ⊢
+        rw [← hr]
+        exact r1.1.symm
+      · rw [e1] at hr; cases hr
+    · simp only [ne_eq, he, not_false_eq_true, if_true] at hr ⊢
+      exact hr
+
+/-- … and a FIFO-cached run stops abnormally only when the uncached run of the same history stops in the same way
+(no `badHint` alternative: FIFO's `Put` ignores the recorded victim and never fails) -/
+theorem fifo_repaired_faults_only_as_uncached (cfg : Cfg) (hcfg : cfg.noStale) (hlg : cfg.lentGuard = true)
+    (f : File) (hf : FileOK f) (ops : List (Op LCache)) (ok : ∀ op ∈ ops, OpOK fifoOps LCache.WF op) (e : Fault)
+    (hr : outputs cfg fifoOps f ops = .error e) :
+    outputs cfg fifoOps f (ops.map Op.uncached) = .error e := by
+  unfold outputs at hr ⊢
+  cases h0 : newReader fifoOps cfg f with
+  | error e' => rw [h0] at hr; simp only at hr ⊢; exact hr
+  | ok v =>
+    obtain ⟨r0, e0⟩ := v
+    rw [h0] at hr
+    simp only at hr ⊢
+    by_cases he : e0 = .none
+    · subst he
+      simp only [ne_eq, not_true_eq_false, if_false] at hr ⊢
+      have s0 := Hts.Model.CachedReaderFifo.newReader_S hcfg h0
+      have h := Hts.Model.CachedReaderFifo.run_sim hcfg hlg hf ops ok s0
+      rcases h.cases with e1 | ⟨a, b, e1, e2, r1⟩ | ⟨e', e1, e2⟩
+      · exact e1.elim
+      · rw [e1] at hr; cases hr
+      · rw [e1] at hr
+        rw [e2]
+        simp only [Except.error.injEq] at hr ⊢
+        exact hr
+    · simp only [ne_eq, he, not_false_eq_true, if_true] at hr
+      cases hr
+
+/-- the statement left open so far holds -/
+theorem fifo_transparent_repaired_full_holds : fifo_transparent_repaired_full :=
+  fun f hf ops ok outs hr => fifo_repaired_transparent Cfg.repaired current_tree_noStale rfl f hf ops ok outs hr
+
+/-- the variant without repair C03-5 is excluded for a reason: there the statement is false
+(`fifo_reattach_witness` is the history) -/
+theorem fifo_needs_lentGuard :
+    ¬ (∀ (f : File), FileOK f → ∀ (ops : List (Op LCache)), (∀ op ∈ ops, OpOK fifoOps LCache.WF op) →
+      ∀ outs, outputs ⟨true, true, true, false⟩ fifoOps f ops = .ok outs →
+        outputs ⟨true, true, true, false⟩ fifoOps f (ops.map Op.uncached) = .ok outs) := by
+  intro h
+  have hok : ∀ op ∈ reattachHist, OpOK fifoOps LCache.WF op := by
+    intro op hop
+    simp only [reattachHist, List.mem_cons, List.mem_nil_iff, or_false] at hop
+    rcases hop with h1 | h1 | h1 | h1 | h1 | h1 | h1 | h1 <;> subst h1 <;>
+      first | exact fifo_setCache_ok 4 (by decide) [] | trivial
+  cases hc : outputs ⟨true, true, true, false⟩ fifoOps file3 reattachHist with
+  | error e =>
+    have := fifo_reattach_witness
+    rw [hc] at this
+    simp [bytesOf] at this
+  | ok outs =>
+    have h2 := h file3 file3_ok reattachHist hok outs hc
+    have h3 : bytesOf (outputs ⟨true, true, true, false⟩ fifoOps file3 reattachHist) ≠
+        bytesOf (outputs ⟨true, true, true, false⟩ fifoOps file3 (reattachHist.map Op.uncached)) := by decide
+    apply h3
+    rw [hc, h2]
+
+/-- non-vacuity: the hypotheses of `fifo_repaired_transparent` hold for the two FIFO witness histories (a `Get` that
+leaves the used block indexed; `SetCache(nil)`, a decompressing Seek, re-attachment), the cached runs are `ok` with 10
+and 8 answers -/
+example : (∀ op ∈ fifoOpsHist, OpOK fifoOps LCache.WF op) ∧ (∀ op ∈ reattachHist, OpOK fifoOps LCache.WF op) ∧
+    (bytesOf (outputs Cfg.repaired fifoOps file3 fifoOpsHist)).length = 10 ∧
+    (bytesOf (outputs Cfg.repaired fifoOps file3 reattachHist)).length = 8 := by
+  refine ⟨?_, ?_, by decide, by decide⟩
+  · intro op hop
+    simp only [fifoOpsHist, List.mem_cons, List.mem_nil_iff, or_false] at hop
+    rcases hop with h1 | h1 | h1 | h1 | h1 | h1 | h1 | h1 | h1 | h1 <;> subst h1 <;>
+      first | exact fifo_setCache_ok 2 (by decide) [] | trivial
+  · intro op hop
+    simp only [reattachHist, List.mem_cons, List.mem_nil_iff, or_false] at hop
+    rcases hop with h1 | h1 | h1 | h1 | h1 | h1 | h1 | h1 <;> subst h1 <;>
+      first | exact fifo_setCache_ok 4 (by decide) [] | trivial
+
+/-- non-vacuity of the interesting part of `FInv`: after `SetCache(FIFO(4)); Read 8; Seek b0` the current block (id 0)
+IS an entry of the FIFO's table (key 0), it is the block on loan and it has been read from — the state `cache_inv`
+excludes and `FInv.loan` describes; after `SetCache(nil)` the detached FIFO still references it -/
+example : (match newReader fifoOps Cfg.repaired file3 with
+    | .ok (r, _) => (match run Cfg.repaired fifoOps file3 r (reattachHist.take 4) with
+        | .ok (r', _) => (r'.cur, r'.lent, r'.cache.map (·.items), r'.parked.map (·.items),
+            r'.cur.map (fun i => (r'.heap i).used))
+        | .error _ => (none, none, none, [], none))
+    | .error _ => (none, none, none, [], none)) =
+    (some 0, some 0, none, [[⟨35, 1⟩, ⟨0, 0⟩]], some true) := by decide
+
+end Fifo
 
 /-! ### read-ahead with a cache (rd > 1): the recorded finding, pinned on an abstract transition system
 
@@ -421,6 +584,46 @@ theorem cached_never_faults (o : CacheOps σ) (wf : σ → Prop) (ct : Contract 
     have hv' : Hts.Spec.Flat.ValidOps (Hts.Model.Bgzf.layoutOf F) ((ops.map Op.uncached).filterMap flatOp) := by
       rw [filterMap_flatOp_uncached]; exact hv
     have := uncached_baseline_refines_flat cfg hcfg o F hwf r0 h0 (ops.map Op.uncached) hp hv'
+    rw [h] at this
+    cases this
+
+/-- **FIFO refines the flat-file specification** (composition of `fifo_repaired_transparent` with the simulation above):
+whatever the reader with FIFO caches returns is what `Hts.Spec.Flat` prescribes for the history without the cache calls -/
+theorem fifo_refines_flat (cfg : Cfg) (hcfg : cfg.failReset = true) (hlg : cfg.lentGuard = true)
+    (F : Hts.Model.Bgzf.File) (hwf : Hts.Model.Bgzf.WF F)
+    (r0 : Hts.Model.Bgzf.Reader) (h0 : Hts.Model.Bgzf.Reader.new F = .ok r0) (ops : List (Op LCache))
+    (ok : ∀ op ∈ ops, OpOK fifoOps LCache.WF op) (hseek : ∀ f b, Op.seek f b ∈ ops → 0 ≤ f)
+    (hv : Hts.Spec.Flat.ValidOps (Hts.Model.Bgzf.layoutOf F) (ops.filterMap flatOp)) (outs : List Out)
+    (hr : outputs cfg fifoOps (ofB F) ops = .ok outs) :
+    outs = flatOuts (Hts.Model.Bgzf.flatOf F) Hts.Spec.Flat.init ops := by
+  have hu := fifo_repaired_transparent cfg (Or.inr hcfg) hlg (ofB F) (fileOK_ofB hwf 0) ops ok outs hr
+  have hp : ∀ op ∈ ops.map Op.uncached, Plain op := by
+    intro op hop
+    obtain ⟨op0, h1, h2⟩ := List.mem_map.1 hop
+    subst h2
+    exact plain_uncached op0 (fun f b e => hseek f b (e ▸ h1))
+  have hv' : Hts.Spec.Flat.ValidOps (Hts.Model.Bgzf.layoutOf F) ((ops.map Op.uncached).filterMap flatOp) := by
+    rw [filterMap_flatOp_uncached]; exact hv
+  have := uncached_baseline_refines_flat cfg hcfg fifoOps F hwf r0 h0 (ops.map Op.uncached) hp hv'
+  rw [hu, flatOuts_uncached] at this
+  exact (Except.ok.inj this)
+
+/-- … and it never panics or hangs on valid histories: every FIFO-cached run returns normally -/
+theorem fifo_never_faults (cfg : Cfg) (hcfg : cfg.failReset = true) (hlg : cfg.lentGuard = true)
+    (F : Hts.Model.Bgzf.File) (hwf : Hts.Model.Bgzf.WF F)
+    (r0 : Hts.Model.Bgzf.Reader) (h0 : Hts.Model.Bgzf.Reader.new F = .ok r0) (ops : List (Op LCache))
+    (ok : ∀ op ∈ ops, OpOK fifoOps LCache.WF op) (hseek : ∀ f b, Op.seek f b ∈ ops → 0 ≤ f)
+    (hv : Hts.Spec.Flat.ValidOps (Hts.Model.Bgzf.layoutOf F) (ops.filterMap flatOp)) (e : Fault)
+    (hr : outputs cfg fifoOps (ofB F) ops = .error e) : False := by
+  have h := fifo_repaired_faults_only_as_uncached cfg (Or.inr hcfg) hlg (ofB F) (fileOK_ofB hwf 0) ops ok e hr
+  · have hp : ∀ op ∈ ops.map Op.uncached, Plain op := by
+      intro op hop
+      obtain ⟨op0, h1, h2⟩ := List.mem_map.1 hop
+      subst h2
+      exact plain_uncached op0 (fun f b e => hseek f b (e ▸ h1))
+    have hv' : Hts.Spec.Flat.ValidOps (Hts.Model.Bgzf.layoutOf F) ((ops.map Op.uncached).filterMap flatOp) := by
+      rw [filterMap_flatOp_uncached]; exact hv
+    have := uncached_baseline_refines_flat cfg hcfg fifoOps F hwf r0 h0 (ops.map Op.uncached) hp hv'
     rw [h] at this
     cases this
 
